@@ -100,7 +100,8 @@ def run(pid, tier):
         dapi = apicheck.run_api(os.path.join(bdir), drv, gen.join(bex).split("\n"), nproc=len(bex), spec="PchkDrawTrace",
                                 drv_env={"OF_DRIVER_PCHKEVENTS": "1"}) if pid == "C05" else None
         if dapi:
-            apicheck.judge(pid, dapi, verdict)
+            apicheck.judge(pid, dapi, verdict)     # only MemFaults can come out of this layer-B run
+            api["drift"] += dapi["drift"]
         rc = verdict.finish()
         nlast = 0
         cov = {
